@@ -223,6 +223,12 @@ func (ex *Exec) loopMods(li *loopInfo) (cells map[*ssa.Alloc]bool, heaps map[str
 						}
 						continue
 					}
+					if hs, ok := ex.monitorCallHeaps(c); ok {
+						for _, h := range hs {
+							heaps[h] = true
+						}
+						continue
+					}
 					var fc *FuncContract
 					var callee *ssa.Function
 					if c.IsInvoke() {
@@ -787,6 +793,10 @@ func (ex *Exec) siteMatches(sel string, in ssa.Instruction) bool {
 			}
 			cn := calleeName(c.Common())
 			return cn == name || strings.HasSuffix(cn, "."+name)
+		case "mapupdate":
+			// "mapupdate #k": the k-th map element assignment m[k] = v of the function
+			_, ok := i.(*ssa.MapUpdate)
+			return ok
 		case "store":
 			st, ok := i.(*ssa.Store)
 			if !ok {
